@@ -192,7 +192,8 @@ Definition run_route (c impl : sexp) : sexp :=
               verdict "jsr_tokens_agree_on_invoked" (match t_router t, inv with
                                                      | Jsr311, Some (w, r) => jsr_tokens_agree w r && jsr_names_agree w r
                                                      | _, _ => false end);
-              verdict "jsr311" (match t_router t with Jsr311 => true | Curly => false end) ] ].
+              verdict "jsr311" (match t_router t with Jsr311 => true | Curly => false end);
+              verdict "trace_logging_on" (sx_bool (sx_nth 3 c)) ] ].
 
 (* ---- domain "slash" (C14): (oracles table request), impl = (obs(p) obs(p/)) ---- *)
 Definition has_tail_template (t : table) : bool :=
@@ -478,6 +479,29 @@ Definition run_disp (c impl : sexp) : sexp :=
                       && Z.eqb (sx_int (sx_nth 2 led)) 0 && Z.eqb (sx_int (sx_nth 3 led)) 0
                       && Z.eqb (sx_int (sx_nth 4 led)) 0 in
   let v_c10_decodes := forallb (fun io => sx_bool (sx_nth 4 io)) i_seq in
+  (* C01 on this domain: every route function that ran (H:<id>) saw itself as the selected route
+     (saw:<path> ...) and its declaration admits the request it ran for — also inside concurrent batches *)
+  let tbl := d_table cfg in
+  let all_routes := flat_map (fun w => map (fun r => (w, r)) (s_routes w)) (t_services tbl) in
+  let c01_events (req : request) (evs : list str) :=
+    (fix go (l : list str) : bool :=
+       match l with
+       | [] => true
+       | e1 :: l' =>
+           (if has_prefix e1 (L "H:") then
+              match l' with
+              | e2 :: _ =>
+                  existsb (fun wr => str_eqb e1 (L "H:" ++ itoa (r_id (snd wr)))
+                                     && (has_prefix e2 (L "saw:" ++ route_path (fst wr) (snd wr) ++ L " ")
+                                         || cfg_has_fresh cfg)   (* a filter passing on a NEW Request drops the selection *)
+                                     && implb (wf_route_for tbl (fst wr) (snd wr)) (admits_for O tbl (fst wr) (snd wr) req))
+                          all_routes
+              | [] => false
+              end
+            else true) && go l'
+       end) evs in
+  let v_c01_disp := forallb (fun x => c01_events (sx_request (sx_nth 1 (fst x))) (sx_strs (sx_nth 5 (snd x))))
+                            (combine hist i_seq ++ combine hist i_conc) in
   let same l1 l2 := Nat.eqb (List.length l1) (List.length l2)
                     && forallb (fun p => sexp_eqb (fst p) (snd p)) (combine l1 l2) in
   let v_c19_hist := same i_seq i_fresh in
@@ -495,7 +519,8 @@ Definition run_disp (c impl : sexp) : sexp :=
               else if existsb (fun r => negb (Nat.eqb (List.length (st_log (state_of r))) 0)) results then "plain"
               else "empty")%string in
   Lst [ m_obs;
-        Lst [ verdict "c06_filter_order" v_c06;
+        Lst [ verdict "c01_route_function_sees_itself_and_admits" v_c01_disp;
+              verdict "c06_filter_order" v_c06;
               verdict "c06_attributes_reach_later_stages" v_c06_attrs;
               verdict "c06_concurrent_same_as_alone" v_c19_conc;
               verdict "c07_encoding_enabled_and_wanted" v_c07;
@@ -506,6 +531,7 @@ Definition run_disp (c impl : sexp) : sexp :=
               verdict "c10_compressors_released_once" v_c10_ledger;
               verdict "c10_body_complete" v_c10_decodes;
               verdict "c10_container_usable_afterwards" (sx_bool (sx_nth 4 impl));
+              verdict "c10_following_requests_served_as_fresh" v_c19_hist;
               verdict "c19_history_same_as_fresh" v_c19_hist;
               verdict "c19_concurrent_same_as_fresh" v_c19_conc ];
         A (L cls);
